@@ -103,7 +103,7 @@ def skeleton(F, fn, _depth=0):
     return ev
 
 
-def r16_4(ctx, f, leaves):
+def r16_4(ctx, f, leaves, rule="R16.4"):
     """every item / completion the async poll path reports is derived from the leaf: a `Ready(Some(..))` built on a path that has not
     asked `ObservableState::poll_update` skips its closed test (version 0 = closed) and its version bookkeeping."""
     F = ctx.facts
@@ -122,12 +122,27 @@ def r16_4(ctx, f, leaves):
         some = inner is not None and agg_variant(inner) and agg_variant(inner)[1] == "Some"
         dominated = any(b.dominates(lb, loc[0]) for lb in leaf_blocks)
         if dominated:
-            ctx.holds("R16.4", f, "ready-derives-from-leaf", b.line_at(loc), "this Ready result is built after the leaf was asked")
+            ctx.holds(rule, f, "ready-derives-from-leaf", b.line_at(loc), "this Ready result is built after the leaf was asked")
         elif some:
-            ctx.violated("R16.4", f, "ready-derives-from-leaf", b.line_at(loc),
+            ctx.violated(rule, f, "ready-derives-from-leaf", b.line_at(loc),
                          "`%s` returns Ready(Some(..)) on a path that never asks ObservableState::poll_update: the closed test (version 0) is skipped, so the stream yields an item where the default flavour ends" % f.path)
         else:
-            ctx.undecided("R16.4", f, "ready-derives-from-leaf", b.line_at(loc), "a Ready result without the leaf")
+            ctx.undecided(rule, f, "ready-derives-from-leaf", b.line_at(loc), "a Ready result without the leaf")
+
+
+def ready_from_leaf(ctx, rule):
+    """R16.4 for every poll function of the eyeball crate that asks the leaf (both flavours)."""
+    F = ctx.facts
+    leaves = find_poll_leaf(F)
+    n = 0
+    for f, sites in wakers.poll_fns(F, (EY,)):
+        if any(f is l for l in leaves) or not f.built:
+            continue
+        if not any(F.local_callee(f, t) in leaves for blk, t in f.built.calls()):
+            continue
+        n += 1
+        r16_4(ctx, f, leaves, rule)
+    ctx.floor(rule, n, 1)
 
 
 def _event_name(F, fn, c, sfns):
